@@ -20,7 +20,7 @@ def keyfn(case, res, m):
 
 def run(chk):
     chk.audit(PROPS)
-    n = 4000 if chk.tier == 'quick' else 150000
+    n = 3000 if chk.tier == 'quick' else 150000
     nb = n // 5
     counter = {'i': 0}
 
